@@ -336,7 +336,9 @@ theorem cap_step (cfg : Cfg) (s : State) (e : Step) (hc : Cap cfg s) : Cap cfg (
           · rename_i rows' hcas
             exact ⟨capInv_capture hc.inv hcas (by intro v hv; cases hv), sel_set hc.sel (selOK_of_poll rfl hsel)⟩
           · exact ⟨hc.inv, sel_set hc.sel (selOK_of_poll rfl hsel)⟩
-        · exact ⟨capInv_invoked _ _ _ hc.inv, sel_set hc.sel (selOK_of_poll rfl hsel)⟩
+        · split
+          · exact ⟨hc.inv, sel_set hc.sel (selOK_of_poll rfl hsel)⟩
+          · exact ⟨capInv_invoked _ _ _ hc.inv, sel_set hc.sel (selOK_of_poll rfl hsel)⟩
         · split
           · rename_i rows' hdel
             exact ⟨capInv_delete hc.inv hdel, sel_set hc.sel (selOK_of_poll rfl hsel)⟩
@@ -371,7 +373,9 @@ theorem cap_step (cfg : Cfg) (s : State) (e : Step) (hc : Cap cfg s) : Cap cfg (
     · exact hc
     · intro inst hi ha
       split
-      · exact ⟨capInv_invoked _ _ _ hc.inv, sel_set hc.sel (selOK_not_selected (by intro cs; simp))⟩
+      · split
+        · exact ⟨hc.inv, sel_set hc.sel (selOK_not_selected (by intro cs; simp))⟩
+        · exact ⟨capInv_invoked _ _ _ hc.inv, sel_set hc.sel (selOK_not_selected (by intro cs; simp))⟩
       · split
         · rename_i rows' hdel
           refine ⟨capInv_delete hc.inv hdel, sel_set hc.sel (selOK_not_selected ?_)⟩
